@@ -9,6 +9,18 @@ package main
 //     `for _, x := range e` clauses inside the method),
 //   - the validation-option flags that dominate the call, with polarity ("+flag" / "-flag"): enclosing
 //     `if` conditions that are conjunctions of flag reads, and preceding `if flag { return … }` statements.
+//   - what the caller does with the error the callee returns (`onErr`): "propagate" when the call is the operand
+//     of a `return`, or sits in `if err := CALL; err != nil { …; return <non-nil> }` (or a naked return of the
+//     named error result), or is `_, err := CALL` directly followed by `return err`; "swallow" when the
+//     `err != nil` branch ends in `return nil` (the method then reports success and stops).
+//   - the *structural* conditions that dominate the call, as literals starting with "@": "@nonnil:<origin>" /
+//     "@isnil:<origin>" for `x != nil` / `x == nil` conjuncts of enclosing `if`s (negated in the else branch),
+//     "@cond:<source text>" / "@not:cond:<…>" for any other non-flag conjunct. The test `err != nil` of the error
+//     of a recorded call is not a structural condition (see onErr);
+//   - an *accepting* early return (`return nil`, `return validateExtensions(…)`, `return x.Validate(…)`) that is
+//     dominated by literals c1 ∧ … ∧ cn (flag or structural), at whatever nesting depth, ends the method when they
+//     hold: every call recorded textually after it is reached only under ¬c1 ∨ … ∨ ¬cn, so its row is split into
+//     one row per ¬ci (rows that already carry some ¬ci stay as they are, contradictory ones are dropped).
 // Plus one row per method with the set of option flags the method reads at all.
 // Everything the rules cannot read becomes an `unrecognised` row.
 
@@ -28,6 +40,7 @@ func init() { register("Descent", extractDescent) }
 type descentEdge struct {
 	src, dst, via string
 	guards       []string
+	onErr        string // what the caller does with the callee's error: "propagate" | "swallow"
 	pos          string
 }
 
@@ -206,27 +219,48 @@ func extractDescent(repo string) (string, error) {
 				}
 				return ""
 			}
-			// literals of a condition: conjunction of (possibly negated) flag reads and other things
-			var conj func(e ast.Expr) (lits []string, other bool)
-			conj = func(e ast.Expr) ([]string, bool) {
+			isNilIdent := func(e ast.Expr) bool {
+				id, ok := e.(*ast.Ident)
+				if !ok || id.Name != "nil" {
+					return false
+				}
+				_, isNil := info.Uses[id].(*types.Nil)
+				return isNil
+			}
+			// literals of a condition: conjunction of (possibly negated) flag reads (lits) and structural
+			// descriptors of the other conjuncts (structs); other = some conjunct is not a flag read
+			var conj func(e ast.Expr) (lits []string, structs []string, other bool)
+			structOf := func(e ast.Expr) string {
+				if b, ok := e.(*ast.BinaryExpr); ok && (b.Op == token.NEQ || b.Op == token.EQL) && isNilIdent(b.Y) {
+					o := origin(b.X, 0)
+					if !strings.Contains(o, "?") {
+						if b.Op == token.NEQ {
+							return "@nonnil:" + o
+						}
+						return "@isnil:" + o
+					}
+				}
+				return "@cond:" + types.ExprString(e)
+			}
+			conj = func(e ast.Expr) ([]string, []string, bool) {
 				switch x := e.(type) {
 				case *ast.ParenExpr:
 					return conj(x.X)
 				case *ast.BinaryExpr:
 					if x.Op == token.LAND {
-						a, oa := conj(x.X)
-						b, ob := conj(x.Y)
-						return append(a, b...), oa || ob
+						a, sa, oa := conj(x.X)
+						b, sb, ob := conj(x.Y)
+						return append(a, b...), append(sa, sb...), oa || ob
 					}
 				case *ast.UnaryExpr:
 					if x.Op == token.NOT {
 						if f := flagOf(x.X); f != "" {
-							return []string{"-" + f}, false
+							return []string{"-" + f}, nil, false
 						}
 					}
 				}
 				if f := flagOf(e); f != "" {
-					return []string{"+" + f}, false
+					return []string{"+" + f}, nil, false
 				}
 				// any flag buried in an unreadable shape?
 				buried := false
@@ -237,16 +271,24 @@ func extractDescent(repo string) (string, error) {
 					return true
 				})
 				if buried {
-					return []string{"?"}, true
+					return []string{"?"}, nil, true
 				}
-				return nil, true
+				return nil, []string{structOf(e)}, true
 			}
 			neg := func(l string) string {
-				if strings.HasPrefix(l, "+") {
+				switch {
+				case strings.HasPrefix(l, "+"):
 					return "-" + l[1:]
-				}
-				if strings.HasPrefix(l, "-") {
+				case strings.HasPrefix(l, "-"):
 					return "+" + l[1:]
+				case strings.HasPrefix(l, "@nonnil:"):
+					return "@isnil:" + l[len("@nonnil:"):]
+				case strings.HasPrefix(l, "@isnil:"):
+					return "@nonnil:" + l[len("@isnil:"):]
+				case strings.HasPrefix(l, "@not:"):
+					return "@" + l[len("@not:"):]
+				case strings.HasPrefix(l, "@"):
+					return "@not:" + l[1:]
 				}
 				return l
 			}
@@ -258,7 +300,110 @@ func extractDescent(repo string) (string, error) {
 				return ok
 			}
 
+			// what happens to the error of a call: call expression -> "propagate" | "swallow" ("" = unreadable)
+			callCtx := map[*ast.CallExpr]string{}
+			namedErr := map[types.Object]bool{}
+			if fd.Type.Results != nil {
+				for _, fld := range fd.Type.Results.List {
+					for _, nm := range fld.Names {
+						if obj := info.Defs[nm]; obj != nil && obj.Type().String() == "error" {
+							namedErr[obj] = true
+						}
+					}
+				}
+			}
+			objOf := func(e ast.Expr) types.Object {
+				id, ok := e.(*ast.Ident)
+				if !ok {
+					return nil
+				}
+				if o := info.Uses[id]; o != nil {
+					return o
+				}
+				return info.Defs[id]
+			}
+			errTests := map[*ast.IfStmt]bool{} // `if err := CALL; err != nil {`: the test of a call's error
+			ast.Inspect(fd.Body, func(n ast.Node) bool {
+				switch s := n.(type) {
+				case *ast.ReturnStmt:
+					if len(s.Results) > 0 {
+						if call, ok := s.Results[len(s.Results)-1].(*ast.CallExpr); ok {
+							callCtx[call] = "propagate"
+						}
+					}
+				case *ast.IfStmt:
+					as, ok := s.Init.(*ast.AssignStmt)
+					if !ok || len(as.Rhs) != 1 || len(as.Lhs) == 0 {
+						return true
+					}
+					call, ok := as.Rhs[0].(*ast.CallExpr)
+					if !ok {
+						return true
+					}
+					errObj := objOf(as.Lhs[len(as.Lhs)-1])
+					cond, ok := s.Cond.(*ast.BinaryExpr)
+					if !ok || cond.Op != token.NEQ || errObj == nil || objOf(cond.X) != errObj || !isNilIdent(cond.Y) {
+						return true
+					}
+					if s.Body == nil || len(s.Body.List) == 0 {
+						return true
+					}
+					errTests[s] = true
+					ret, ok := s.Body.List[len(s.Body.List)-1].(*ast.ReturnStmt)
+					if !ok {
+						return true
+					}
+					switch {
+					case len(ret.Results) == 0:
+						if namedErr[errObj] {
+							callCtx[call] = "propagate"
+						}
+					case isNilIdent(ret.Results[len(ret.Results)-1]):
+						callCtx[call] = "swallow"
+					default:
+						callCtx[call] = "propagate"
+					}
+				case *ast.BlockStmt:
+					for i, st := range s.List {
+						as, ok := st.(*ast.AssignStmt)
+						if !ok || len(as.Rhs) != 1 || len(as.Lhs) == 0 || i+1 >= len(s.List) {
+							continue
+						}
+						call, ok := as.Rhs[0].(*ast.CallExpr)
+						if !ok {
+							continue
+						}
+						ret, ok := s.List[i+1].(*ast.ReturnStmt)
+						if !ok || len(ret.Results) == 0 {
+							continue
+						}
+						if eo := objOf(as.Lhs[len(as.Lhs)-1]); eo != nil && objOf(ret.Results[len(ret.Results)-1]) == eo {
+							callCtx[call] = "propagate"
+						}
+					}
+				}
+				return true
+			})
+
 			seenFlags := map[string]bool{}
+			var pendingSkips [][]string // conjunctions of literals under which an accepting return was met earlier in the text
+			acceptingReturn := func(r *ast.ReturnStmt) bool {
+				if len(r.Results) == 0 {
+					return false
+				}
+				switch x := r.Results[len(r.Results)-1].(type) {
+				case *ast.Ident:
+					return isNilIdent(x)
+				case *ast.CallExpr:
+					switch f := x.Fun.(type) {
+					case *ast.Ident:
+						return f.Name == "validateExtensions"
+					case *ast.SelectorExpr:
+						return f.Sel.Name == "Validate" || f.Sel.Name == "validate"
+					}
+				}
+				return false
+			}
 			var walkStmts func(list []ast.Stmt, guards []string)
 			var walkNode func(n ast.Node, guards []string)
 			record := func(call *ast.CallExpr, guards []string) {
@@ -311,7 +456,51 @@ func extractDescent(repo string) (string, error) {
 						return
 					}
 				}
-				edges = append(edges, descentEdge{src: from, dst: dst, via: via, guards: g, pos: where(call)})
+				has := func(r []string, y string) bool {
+					for _, x := range r {
+						if x == y {
+							return true
+						}
+					}
+					return false
+				}
+				rows := [][]string{g}
+				for _, c := range pendingSkips {
+					var next [][]string
+					for _, r := range rows {
+						already := false
+						for _, l := range c {
+							if has(r, neg(l)) {
+								already = true
+							}
+						}
+						if already {
+							next = append(next, r)
+							continue
+						}
+						for _, l := range c {
+							if has(r, l) {
+								continue // r ∧ ¬l would need l and ¬l … only if l is the whole conjunction is the row dead
+							}
+							next = append(next, append(append([]string{}, r...), neg(l)))
+						}
+					}
+					rows = next
+				}
+				oe := callCtx[call]
+				if oe == "" {
+					unrec = append(unrec, where(call)+" (error of the call neither returned nor tested)")
+					return
+				}
+				seenRow := map[string]bool{}
+				for _, r := range rows {
+					k := strings.Join(r, "\x00")
+					if seenRow[k] {
+						continue
+					}
+					seenRow[k] = true
+					edges = append(edges, descentEdge{src: from, dst: dst, via: via, guards: r, onErr: oe, pos: where(call)})
+				}
 			}
 			walkNode = func(n ast.Node, guards []string) {
 				if n == nil {
@@ -324,15 +513,22 @@ func extractDescent(repo string) (string, error) {
 					if s.Init != nil {
 						walkNode(s.Init, guards)
 					}
-					lits, other := conj(s.Cond)
+					lits, structs, other := conj(s.Cond)
+					if errTests[s] {
+						structs = nil // the test of a recorded call's error is not a structural condition
+					}
 					walkNode(s.Cond, guards)
-					walkNode(s.Body, append(append([]string{}, guards...), lits...))
+					walkNode(s.Body, append(append(append([]string{}, guards...), lits...), structs...))
 					if s.Else != nil {
 						eg := append([]string{}, guards...)
 						if len(lits) == 1 && !other {
 							eg = append(eg, neg(lits[0]))
 						} else if len(lits) > 0 {
 							eg = append(eg, "?")
+						} else if len(structs) == 1 {
+							eg = append(eg, neg(structs[0]))
+						} else if len(structs) > 1 {
+							eg = append(eg, "@not:cond:"+types.ExprString(s.Cond))
 						}
 						walkNode(s.Else, eg)
 					}
@@ -344,6 +540,21 @@ func extractDescent(repo string) (string, error) {
 					walkNode(s.Fun, guards)
 				case *ast.FuncLit:
 					walkNode(s.Body, guards)
+				case *ast.ReturnStmt:
+					for _, r := range s.Results {
+						walkNode(r, guards)
+					}
+					if acceptingReturn(s) {
+						var c []string
+						for _, l := range guards {
+							if strings.HasPrefix(l, "+") || strings.HasPrefix(l, "-") || strings.HasPrefix(l, "@") {
+								c = append(c, l)
+							}
+						}
+						if len(c) > 0 {
+							pendingSkips = append(pendingSkips, c)
+						}
+					}
 				default:
 					// generic traversal of direct children, keeping the guard set
 					ast.Inspect(n, func(c ast.Node) bool {
@@ -351,7 +562,7 @@ func extractDescent(repo string) (string, error) {
 							return true
 						}
 						switch c.(type) {
-						case *ast.BlockStmt, *ast.IfStmt, *ast.CallExpr, *ast.FuncLit:
+						case *ast.BlockStmt, *ast.IfStmt, *ast.CallExpr, *ast.FuncLit, *ast.ReturnStmt:
 							walkNode(c, guards)
 							return false
 						}
@@ -364,7 +575,7 @@ func extractDescent(repo string) (string, error) {
 				for _, st := range list {
 					walkNode(st, g)
 					if is, ok := st.(*ast.IfStmt); ok && is.Else == nil && endsWithReturn(is.Body) {
-						lits, other := conj(is.Cond)
+						lits, _, other := conj(is.Cond)
 						if len(lits) == 1 && !other {
 							g = append(append([]string{}, g...), neg(lits[0]))
 						} else if len(lits) > 0 {
@@ -406,14 +617,14 @@ func extractDescent(repo string) (string, error) {
 	fmt.Fprintf(&b, "-- rows: %d\n", len(edges)+len(methods)+len(unrec))
 	b.WriteString("namespace KinModel.Gen\n\n")
 	b.WriteString("/-- one child check called by a Validate method -/\n")
-	b.WriteString("structure DescentRow where\n  src : String\n  dst : String\n  via : String\n  guards : List String\n  deriving DecidableEq, Repr\n\n")
+	b.WriteString("structure DescentRow where\n  src : String\n  dst : String\n  via : String\n  guards : List String\n  onErr : String\n  deriving DecidableEq, Repr\n\n")
 	b.WriteString("def descent : List DescentRow := [\n")
 	for i, e := range edges {
 		sep := ","
 		if i == len(edges)-1 {
 			sep = ""
 		}
-		fmt.Fprintf(&b, "  ⟨%s, %s, %s, %s⟩%s -- %s\n", q(e.src), q(e.dst), q(e.via), ql(e.guards), sep, e.pos)
+		fmt.Fprintf(&b, "  ⟨%s, %s, %s, %s, %s⟩%s -- %s\n", q(e.src), q(e.dst), q(e.via), ql(e.guards), q(e.onErr), sep, e.pos)
 	}
 	b.WriteString("]\n\n")
 	b.WriteString("/-- option flags read anywhere in the method -/\ndef descentReads : List (String × List String) := [\n")
